@@ -188,11 +188,26 @@ pub fn msg_obs(which: &str, s: u8, d1: u8, d2: u8) -> Obs {
 
 pub const IMPLS: [&str; 4] = ["raw", "str", "frn", "ftb"];
 
-pub fn blk_digest(which: &str, s: u8) -> u64 {
+fn mask_keeps(mask: &str, i: usize) -> bool {
+    match mask {
+        "c01" => i < 7 || (23 <= i && i < 34),
+        "c02" => 7 <= i && i < 27,
+        _ => true,
+    }
+}
+
+pub fn mask_cells(mask: &str, o: Obs) -> Obs {
+    if o.0.len() <= 1 || mask == "all" {
+        return o;
+    }
+    Obs(o.0.iter().enumerate().filter(|(i, _)| mask_keeps(mask, *i)).map(|(_, c)| *c).collect())
+}
+
+pub fn blk_digest(mask: &str, which: &str, s: u8) -> u64 {
     let mut h = FNV_INIT;
     for d1 in 0..128u8 {
         for d2 in 0..128u8 {
-            h = digest(h, &msg_obs(which, s, d1, d2));
+            h = digest(h, &mask_cells(mask, msg_obs(which, s, d1, d2)));
         }
     }
     h
